@@ -8,7 +8,8 @@ package pools
 // assembles being finished with a proposer "as the node does" (UnfinishedBlock.FinishBlock with
 // the eligibility computed like agreement.payoutEligible) and pushed through validation and
 // evaluation on two OTHER ledgers in the same state (L2: default LRU caches, L3:
-// DisableLedgerLRUCache), rebuilt from the block history with Ledger.AddBlock.
+// DisableLedgerLRUCache), rebuilt from the block history with Ledger.AddBlock (one pair per
+// distinct history, shared read-only by all proposals on that history).
 //
 // Start state (built through the real API in New): block 1 = [D creates application APP,
 // D funds the application account, P re-registers its keys paying the incentive fee]. Consensus =
@@ -55,9 +56,10 @@ package pools
 //             finished block (payset with ApplyData, header) and the same StateDelta except for
 //             the proposer/fee-sink records, totals and header (the payout is only applied once the
 //             proposer is known); the same holds for the pool's own UnfinishedDeltas
-//   state     after adding the block to L2 (AddValidatedBlock of L2's own validation) and L3
-//             (AddBlock), all accounts, the application's global state and box, and the totals
-//             are equal on both ledgers
+//   state     L2 and L3, which followed the block history (external blocks and the pool's committed
+//             proposals) with Ledger.AddBlock, are in the same state as the generator's L1, which
+//             added the same blocks with Validate+AddValidatedBlock: all accounts, the
+//             application's global state and box, the totals
 //   payout    FeesCollected equals the sum of the fees of the payset; an ineligible proposer (Q)
 //             is promised no payout (agreement.verifyProposer would reject the proposal)
 // Eval(validate=true) itself compares every recomputed ApplyData with the one in the block, so
@@ -203,6 +205,11 @@ type c20world struct {
 	seed    committee.Seed
 
 	bl1, bl4 execpool.BacklogPool
+
+	repMu     sync.Mutex
+	reps      map[string]*c20replicas
+	repClock  int64
+	nReplicas atomic.Int64
 
 	finalDone sync.Map // memo of checked (history, payset)
 	nFinal    atomic.Int64
@@ -358,7 +365,7 @@ func c20RegisterProto() {
 
 func c20MakeWorld() (*c20world, error) {
 	c20RegisterProto()
-	w := &c20world{params: config.Consensus[c20Proto], names: map[transactions.Txid]string{}, fees: map[transactions.Txid]uint64{}}
+	w := &c20world{reps: map[string]*c20replicas{}, params: config.Consensus[c20Proto], names: map[transactions.Txid]string{}, fees: map[transactions.Txid]uint64{}}
 	w.nItems = ve.Pick(c20T2, c20nItems)
 	w.maxPend = ve.Pick(3, 4)
 	w.maxRnd = ve.Pick(2, 3)
@@ -897,19 +904,96 @@ func c20Diff(a, b string) string {
 
 // ---- the oracle ------------------------------------------------------------------------------
 
-// replica opens a fresh ledger and feeds it the block history with AddBlock.
-func (s *c20sys) replica(noLRU bool) (*ledger.Ledger, error) {
-	l, err := s.w.openLedger(noLRU)
-	if err != nil {
-		return nil, err
+// c20replicas are the two validator ledgers for one block history: L2 (LRU caches on — opening
+// one allocates ~100 MB of cache buffers, hence the sharing) and L3 (DisableLedgerLRUCache), both
+// fed with Ledger.AddBlock. They are only READ by the checks (Validate / Eval / StartEvaluator),
+// so all proposals on the same history share them; the first user sees them cold.
+type c20replicas struct {
+	once     sync.Once
+	l2, l3   *ledger.Ledger
+	err      error
+	refs     int
+	stamp    int64
+	state2   string
+	state3   string
+	stateErr error
+}
+
+const c20ReplicaCap = 6
+
+func (s *c20sys) acquireReplicas() *c20replicas {
+	w := s.w
+	hk := strings.Join(s.histName, "")
+	w.repMu.Lock()
+	e := w.reps[hk]
+	if e == nil {
+		e = &c20replicas{}
+		w.reps[hk] = e
 	}
-	for _, b := range s.hist {
-		if err := l.AddBlock(b, agreement.Certificate{}); err != nil {
-			l.Close()
-			return nil, fmt.Errorf("replica AddBlock(%d): %w", b.Round(), err)
+	e.refs++
+	w.repClock++
+	e.stamp = w.repClock
+	var victims []*c20replicas
+	for len(w.reps) > c20ReplicaCap {
+		var vk string
+		var v *c20replicas
+		for k, x := range w.reps {
+			if x.refs == 0 && (v == nil || x.stamp < v.stamp) {
+				vk, v = k, x
+			}
 		}
+		if v == nil {
+			break
+		}
+		delete(w.reps, vk)
+		victims = append(victims, v)
 	}
-	return l, nil
+	w.repMu.Unlock()
+	for _, v := range victims {
+		v.close()
+	}
+	e.once.Do(func() {
+		w.nReplicas.Add(1)
+		build := func(noLRU bool) (*ledger.Ledger, error) {
+			l, err := w.openLedger(noLRU)
+			if err != nil {
+				return nil, err
+			}
+			for _, b := range s.hist {
+				if err := l.AddBlock(b, agreement.Certificate{}); err != nil {
+					l.Close()
+					return nil, fmt.Errorf("AddBlock(%d): %w", b.Round(), err)
+				}
+			}
+			return l, nil
+		}
+		if e.l2, e.err = build(false); e.err != nil {
+			return
+		}
+		if e.l3, e.err = build(true); e.err != nil {
+			return
+		}
+		if e.state2, e.stateErr = s.stateDump(e.l2); e.stateErr != nil {
+			return
+		}
+		e.state3, e.stateErr = s.stateDump(e.l3)
+	})
+	return e
+}
+
+func (e *c20replicas) close() {
+	if e.l2 != nil {
+		e.l2.Close()
+	}
+	if e.l3 != nil {
+		e.l3.Close()
+	}
+}
+
+func (w *c20world) releaseReplicas(e *c20replicas) {
+	w.repMu.Lock()
+	e.refs--
+	w.repMu.Unlock()
 }
 
 func (s *c20sys) stateDump(l *ledger.Ledger) (string, error) {
@@ -950,16 +1034,26 @@ func (s *c20sys) stateDump(l *ledger.Ledger) (string, error) {
 func (s *c20sys) checkProposal(ub *ledgercore.UnfinishedBlock, what string) error {
 	w := s.w
 	ctx := context.Background()
-	l2, err := s.replica(false)
-	if err != nil {
-		return ve.Violationf("C20:replica-rejects-history", "a fresh ledger does not accept the block history %v: %v", s.histName, err)
+	rep := s.acquireReplicas()
+	defer w.releaseReplicas(rep)
+	if rep.err != nil {
+		return ve.Violationf("C20:replica-rejects-history", "a fresh ledger does not accept the block history %v through AddBlock: %v", s.histName, rep.err)
 	}
-	defer l2.Close()
-	l3, err := s.replica(true)
-	if err != nil {
-		return ve.Violationf("C20:replica-rejects-history", "a fresh ledger (no LRU) does not accept the block history %v: %v", s.histName, err)
+	l2, l3 := rep.l2, rep.l3
+	// state clause: the validators that followed the history with AddBlock are in the generator's state
+	if rep.stateErr != nil {
+		return ve.Violationf("C20:harness", "harness: state dump of the replicas: %v", rep.stateErr)
 	}
-	defer l3.Close()
+	d1, err := s.stateDump(s.l1)
+	if err != nil {
+		return ve.Violationf("C20:harness", "harness: state dump L1: %v", err)
+	}
+	if d1 != rep.state2 {
+		return ve.Violationf("C20:state-differs", "after history %v the state of L2 (AddBlock) differs from the generator's L1: %s", s.histName, c20Diff(rep.state2, d1))
+	}
+	if d1 != rep.state3 {
+		return ve.Violationf("C20:state-differs", "after history %v the state of L3 (noLRU, AddBlock) differs from the generator's L1: %s", s.histName, c20Diff(rep.state3, d1))
+	}
 
 	names, _ := s.paysetNames(ub.UnfinishedBlock())
 	var feeSum uint64
@@ -1087,33 +1181,6 @@ func (s *c20sys) checkProposal(ub *ledgercore.UnfinishedBlock, what string) erro
 			return ve.Violationf("C20:delta-differs-pool", "%s: the pool's own UnfinishedDeltas differ from %s (proposer/sink records, totals, header excluded): %s", desc, refName, c20Diff(ownCanon, refPartial))
 		}
 	}
-	// state clause: add P's variant to L2 (AddValidatedBlock of its own validation) and to L3
-	// (AddBlock = evaluation without validation) and compare the resulting ledger states
-	pr := w.addrs[c20P]
-	el, _ := w.eligible(s.l1, ub.Round(), pr)
-	blk := ub.FinishBlock(w.seed, pr, el)
-	desc := fmt.Sprintf("%s proposal [%s] for round %d by P on history %v", what, names, blk.Round(), s.histName)
-	vb2, err := l2.Validate(ctx, blk, w.bl4)
-	if err != nil {
-		return ve.Violationf("C20:proposal-rejected", "%s: L2.Validate rejects it: %v", desc, err)
-	}
-	if err := l2.AddValidatedBlock(*vb2, agreement.Certificate{}); err != nil {
-		return ve.Violationf("C20:proposal-rejected", "%s: L2.AddValidatedBlock: %v", desc, err)
-	}
-	if err := l3.AddBlock(blk, agreement.Certificate{}); err != nil {
-		return ve.Violationf("C20:proposal-rejected", "%s: L3.AddBlock: %v", desc, err)
-	}
-	d2, err := s.stateDump(l2)
-	if err != nil {
-		return ve.Violationf("C20:harness", "harness: state dump L2: %v", err)
-	}
-	d3, err := s.stateDump(l3)
-	if err != nil {
-		return ve.Violationf("C20:harness", "harness: state dump L3: %v", err)
-	}
-	if d2 != d3 {
-		return ve.Violationf("C20:state-differs", "%s: after adding it, the state of L2 (validated block) differs from L3 (noLRU, AddBlock): %s", desc, c20Diff(d2, d3))
-	}
 	return nil
 }
 
@@ -1219,6 +1286,9 @@ func TestVerif_C20(t *testing.T) {
 	probe.close()
 	nOps := w.nItems + 3
 	depth := ve.Pick(4, 6)
+	if v := ve.Env("VERIF_C20_DEPTH", ""); v != "" {
+		fmt.Sscan(v, &depth)
+	}
 	q := &ve.Seq[*c20h]{
 		Name:   "propose",
 		NumOps: nOps,
@@ -1263,8 +1333,12 @@ func TestVerif_C20(t *testing.T) {
 	res := q.Explore(r)
 	cov.AddSeq(res)
 	cov.Exhaustive = res.Exhaustive
+	for _, e := range w.reps {
+		e.close()
+	}
 	w.bl1.Shutdown()
 	w.bl4.Shutdown()
+	r.Set("validator_ledger_pairs_built", w.nReplicas.Load())
 	var outs []string
 	w.outcomes.Range(func(k, _ any) bool { outs = append(outs, k.(string)); return true })
 	sort.Strings(outs)
